@@ -904,7 +904,7 @@ def correspondence(ctx: "Ctx") -> None:
         res = run_worker(ctx, cc, "corpus")
         compare_cases(ctx, cc, res)
         ctx.count("corpus-cases", len(cc))
-    n = ctx.n(int(os.environ.get("C18_N", "600")), 8000)
+    n = ctx.n(int(os.environ.get("C18_N", "500")), 8000)
     cases = [gen_case(rng, i) for i in range(n)]
     results: List[Dict[str, Any]] = []
     chunk = 2000
